@@ -291,6 +291,7 @@ func (r *AuthnRequest) Redirect(relayState string, sp *ServiceProvider) (*url.UR
 	base64Writer := base64.NewEncoder(base64.StdEncoding, &requestStr)
 	compressedWriter, _ := flate.NewWriter(base64Writer, 9)
 	doc := etree.NewDocument()
+	doc.WriteSettings = canonicalWriteSettings
 	doc.SetRoot(r.Element())
 	if _, err := doc.WriteTo(compressedWriter); err != nil {
 		return nil, err
@@ -659,6 +660,7 @@ func (sp *ServiceProvider) MakePostAuthenticationRequest(relayState string) ([]b
 // Post returns an HTML form suitable for using the HTTP-POST binding with the request
 func (r *AuthnRequest) Post(relayState string) []byte {
 	doc := etree.NewDocument()
+	doc.WriteSettings = canonicalWriteSettings
 	doc.SetRoot(r.Element())
 	reqBuf, err := doc.WriteToBytes()
 	if err != nil {
@@ -1422,6 +1424,7 @@ func (r *LogoutRequest) Redirect(relayState string) *url.URL {
 	w1 := base64.NewEncoder(base64.StdEncoding, w)
 	w2, _ := flate.NewWriter(w1, 9)
 	doc := etree.NewDocument()
+	doc.WriteSettings = canonicalWriteSettings
 	doc.SetRoot(r.Element())
 	if _, err := doc.WriteTo(w2); err != nil {
 		panic(err)
@@ -1459,6 +1462,7 @@ func (sp *ServiceProvider) MakePostLogoutRequest(nameID, relayState string) ([]b
 // Post returns an HTML form suitable for using the HTTP-POST binding with the request
 func (r *LogoutRequest) Post(relayState string) []byte {
 	doc := etree.NewDocument()
+	doc.WriteSettings = canonicalWriteSettings
 	doc.SetRoot(r.Element())
 	reqBuf, err := doc.WriteToBytes()
 	if err != nil {
@@ -1536,6 +1540,7 @@ func (r *LogoutResponse) Redirect(relayState string) *url.URL {
 	w1 := base64.NewEncoder(base64.StdEncoding, w)
 	w2, _ := flate.NewWriter(w1, 9)
 	doc := etree.NewDocument()
+	doc.WriteSettings = canonicalWriteSettings
 	doc.SetRoot(r.Element())
 	if _, err := doc.WriteTo(w2); err != nil {
 		panic(err)
@@ -1573,6 +1578,7 @@ func (sp *ServiceProvider) MakePostLogoutResponse(logoutRequestID, relayState st
 // Post returns an HTML form suitable for using the HTTP-POST binding with the LogoutResponse.
 func (r *LogoutResponse) Post(relayState string) []byte {
 	doc := etree.NewDocument()
+	doc.WriteSettings = canonicalWriteSettings
 	doc.SetRoot(r.Element())
 	reqBuf, err := doc.WriteToBytes()
 	if err != nil {
